@@ -274,6 +274,11 @@ def operator_call(em, n, rd, args):
         # insertion chain is dropped (its operands are plain reads)
         em.lowerings['M-ostream(stream insertion dropped)'] += 1
         return '((void)0)'
+    if rd.get('name') == 'operator+=' and len(args) == 2 and re.match(r'^(basic_string<char|string$)', _obj_norm(em, args[0])) and em.opts.get('diag_strings'):
+        # M-str (opt diag_strings): appending to a std::string that only feeds a diagnostic message: the content of the message is
+        # not part of any contract; the right operand is evaluated, the string object stays as it is
+        em.lowerings['M-str(diagnostic string: operator+= leaves the modelled string unchanged)'] += 1
+        return '(*({ (void)(%s); &(%s); }))' % (em.E(args[1]), em.E(args[0]))
     if rd.get('name') == 'operator-' and len(args) == 2 and re.match(r'^(chrono::)?(time_point<|duration<)', _obj_norm(em, args[0])):
         em.lowerings['M-chrono(operator-)'] += 1
         return '((%s) - (%s))' % (em.E(args[0]), em.E(args[1]))
@@ -337,6 +342,9 @@ def member_call(em, n, callee, obj, args, rd):
     nm = callee.get('name')
     on = _obj_norm(em, obj)
     o = em.E(obj) if not callee.get('isArrow') else '(*%s)' % em.E(obj)
+    if re.match(r'^(const)?(basic_string<char|string$)', on) and nm == 'c_str' and not args:
+        em.lowerings['M-mem(std::string::c_str: the pointer of the model)'] += 1
+        return '((%s).src)' % o
     if re.match(r'^(chrono::)?duration<', on) and nm == 'count' and not args:
         em.lowerings['M-chrono(duration::count)'] += 1
         return '(%s)' % o
